@@ -43,6 +43,7 @@ pub struct HistCounters {
     pub drops_with_full_message_buffered: u64,
     pub drops_never_polled: u64,
     pub envelope_violations_sent: u64,
+    pub messages_ending_in_empty_frame: u64,
     pub max_overtaken: u64,
     pub probes: u64,
 }
@@ -219,7 +220,12 @@ pub async fn run(o: &HistOpts) -> HistOutcome {
                         c.envelope_violations_sent += 1;
                     } else {
                         let shape: Vec<usize> = (0..r.range(1, 3)).map(|_| *r.pick(&[0usize, 1, 17, 255, 256, 3000, 9000])).collect();
-                        let payload = rc::tagged(i as u16, p.next_seq, &shape);
+                        let mut payload = rc::tagged(i as u16, p.next_seq, &shape);
+                        if r.chance(1, 5) {
+                            // a message whose LAST frame is empty (stripped again before the tag check)
+                            payload.push(vec![]);
+                            c.messages_ending_in_empty_frame += 1;
+                        }
                         p.peer.send_held(&wire_for(ty, &payload));
                         p.fed.push((p.next_seq, false));
                         p.next_seq += 1;
@@ -348,9 +354,12 @@ pub async fn run(o: &HistOpts) -> HistOutcome {
         drop(rv);
         let Some(res) = res else { continue };
         match res {
-            Ok(m) => {
+            Ok(mut m) => {
                 deliveries += 1;
                 c.deliveries += 1;
+                if m.len() >= 2 && m.last().map(|f| f.is_empty()).unwrap_or(false) {
+                    m.pop(); // the deliberate trailing empty frame
+                }
                 let skip = if ty == "ROUTER" { 1 } else { 0 };
                 let tag = match rc::parse_tag(&m, skip) {
                     Ok(t) => t,
